@@ -1678,3 +1678,8 @@ mod fuzz {
         });
     }
 }
+
+// Verification hook (off unless built with `--cfg tokio_rs_bytes_verif`): in-crate harness module of /verif.
+#[cfg(tokio_rs_bytes_verif)]
+#[path = "/verif/kani/incrate/bytes.rs"]
+mod verif_incrate;
